@@ -193,6 +193,9 @@ func (gen *Generator) GenerateDef(args []Sexp, opname string) error {
 		return fmt.Errorf("Wrong number of arguments to %s", opname)
 	}
 	Q("GenerateDef call with args[0]=%v", args[0].SexpString(nil))
+	// neither the target nor the value is in tail position:
+	// the binding instruction still follows them.
+	gen.Tail = false
 	dup := true
 	var instr Instruction
 	switch args[0].(type) {
@@ -220,7 +223,6 @@ func (gen *Generator) GenerateDef(args []Sexp, opname string) error {
 		}
 	}
 
-	gen.Tail = false
 	err := gen.Generate(args[1])
 	if err != nil {
 		return err
@@ -499,6 +501,10 @@ func (gen *Generator) GenerateLet(name string, args []Sexp) error {
 	gen.AddInstruction(AddScopeInstr{Name: "runtime " + name})
 	gen.scopes++
 
+	// the binding expressions are never in tail position,
+	// only the last form of the body can be.
+	oldtail := gen.Tail
+	gen.Tail = false
 	if name == "letseq" {
 		for i, rs := range rstatements {
 			err := gen.Generate(rs)
@@ -518,6 +524,7 @@ func (gen *Generator) GenerateLet(name string, args []Sexp) error {
 			gen.AddInstruction(PopStackPutEnvInstr{lstatements[i]})
 		}
 	}
+	gen.Tail = oldtail
 	err := gen.GenerateBegin(args[1:])
 	if err != nil {
 		return err
@@ -532,6 +539,7 @@ func (gen *Generator) GenerateAssert(args []Sexp) error {
 	if len(args) != 1 {
 		return WrongNargs
 	}
+	gen.Tail = false // the test is followed by the branch on its value
 	err := gen.Generate(args[0])
 	if err != nil {
 		return err
@@ -552,6 +560,7 @@ func (gen *Generator) GenerateInclude(args []Sexp) error {
 	if len(args) < 1 {
 		return WrongNargs
 	}
+	gen.Tail = false // code of an included file is not in tail position
 
 	var err error
 	var exps []Sexp
@@ -706,6 +715,7 @@ func (gen *Generator) GenerateBuilder(fun Sexp, args []Sexp) error {
 	for i := 0; i < n; i++ {
 		gen.AddInstruction(PushInstr{args[i]})
 	}
+	gen.Tail = false // the dispatch follows
 	if err := gen.Generate(fun); err != nil {
 		return err
 	}
@@ -825,6 +835,7 @@ func (gen *Generator) GenerateCall(expr *SexpPair) error {
 }
 
 func (gen *Generator) GenerateArray(arr *SexpArray) error {
+	gen.Tail = false // elements are followed by the array constructor call
 	err := gen.GenerateAll(arr.Val)
 	if err != nil {
 		return err
@@ -1195,6 +1206,7 @@ func (gen *Generator) GenerateSyntaxQuote(args []Sexp) error {
 		return fmt.Errorf("syntaxQuote takes exactly one argument")
 	}
 	arg := args[0]
+	gen.Tail = false // unquoted expressions are followed by the code that rebuilds the template
 
 	// need to handle arrays, since they can have unquotes
 	// in them too.
@@ -1545,11 +1557,13 @@ func (gen *Generator) GeneratePackage(expressions []Sexp) error {
 		}
 	}
 
-	gen.Tail = oldtail
+	// the last form of a package body is not in tail position either:
+	// the package epilogue follows it.
 	err := gen.Generate(expressions[size-1])
 	if err != nil {
 		return err
 	}
+	gen.Tail = oldtail
 	gen.AddInstruction(PopUntilStackmarkInstr{sym: symPkgName})
 	gen.AddInstruction(PopInstr(0)) // remove the stackmark itself now
 	gen.AddInstruction(PopScopeTransferToDataStackInstr{PackageName: pkgName})
@@ -1596,6 +1610,7 @@ func (gen *Generator) GenerateReturn(xs []Sexp) error {
 	}
 
 	if n > 1 {
+		gen.Tail = false // the values are collected into a vector afterwards
 		gen.AddInstruction(PushInstr{SexpMarker})
 	}
 	for i := range xs {
